@@ -19,6 +19,18 @@ def byte_cases(rng, n):
            b"grammar x; start = \"" + b"a" * 5000 + b"\";", b"grammar x; start = A; A = /" + b"a" * 300 + b"/;", b"grammar x;\x00 start = a;", b"grammar \xf0\x9f\x8c\xb5;",
            # runs of millions of skipped tokens (blank lines, comments): the depth of the call stack must not follow their number
            b"grammar x;\n" + b" \n" * 3000000 + b"start = \"x\";\n", b"grammar x;" + b"//c\n" * 2500000 + b"start = \"x\";", b"grammar x; start = \"x\";" + b"/**/ " * 2500000]
+    # user rules spelled like the names emerge synthesises for ( ) [ ] { } {{ }} - numbered (gen1_group ...) and descriptive (gen_a_opt ...),
+    # declared before and after the operator that needs the name, also for the second operator of a rule: taken names must be skipped
+    ops = {"group": '("a" "b")', "opt": '["a" "b"]', "star": '{"a" "b"}', "plus": '{{"a" "b"}}'}
+    for kind, ex in ops.items():
+        for nn in ("1", "2", "3"):
+            nm = "gen%s_%s" % (nn, kind)
+            out.append(('grammar g; %s = "x"; start = %s %s;' % (nm, ex, nm)).encode())
+            out.append(('grammar g; start = %s %s; %s = "x";' % (ex, nm, nm)).encode())
+            out.append(('grammar g; %s = "x"; start = %s %s %s;' % (nm, ex, ex.replace("a", "c"), nm)).encode())
+    for nm, ex in (("gen_a_opt", "[a]"), ("gen_a_star", "{a}"), ("gen_a_plus", "{{a}}"), ("gen_A_opt", "[A]")):
+        out.append(('grammar g; %s = "x"; start = %s %s; a = "y"; A = "z";' % (nm, ex, nm)).encode())
+        out.append(('grammar g; start = %s %s; %s = "x"; a = "y"; A = "z";' % (ex, nm, nm)).encode())
     for _ in range(n):
         k = rng.random()
         if k < 0.25:
